@@ -713,7 +713,7 @@ class Doman(_InstallWrapper):
     arg_parser = IpcArgumentParser(parents=(_InstallWrapper.arg_parser,))
     arg_parser.add_argument("-i18n", default="")
 
-    detect_lang_re = re.compile(r"^(\w+)\.([a-z]{2}([A-Z]{2})?)\.(\w+)$")
+    detect_lang_re = re.compile(r"^(.+)\.([a-z]{2}(_[A-Z]{2})?)\.([^.]+)$")
     valid_mandir_re = re.compile(r"man[0-9n](f|p|pm)?$")
 
     def __init__(self, *args, **kwargs):
